@@ -113,6 +113,8 @@ def ensure_coqproject():
 
 def coq_make(targets, timeout=1800):
     """Build the given .vo targets (full .vo build) under the shared lock. Returns (ok, log)."""
+    if not targets:
+        return True, ''
     with Lock('coq'):
         ensure_coqproject()
         if not os.path.exists(os.path.join(COQ, 'Makefile')) or \
@@ -237,7 +239,7 @@ def parse_transcript(text):
                     cur[-1][tag] = vals
     return res, order
 
-ASAN_ENV = 'detect_leaks=1:abort_on_error=0:exitcode=97:allocator_may_return_null=1:max_allocation_size_mb=512'
+ASAN_ENV = 'detect_leaks=1:abort_on_error=0:exitcode=97:max_allocation_size_mb=512'
 
 def run_impl(exe, cases, bdir, tag='impl', timeout=600):
     """Run the harness on the cases. Returns (transcripts, crashes) where crashes = {case_id: text}."""
@@ -355,8 +357,8 @@ class Check:
         path = os.path.join(self.rdir, name)
         with open(path, 'w') as f:
             f.write('# property %s\n# family %s\n# reason %s\n' % (self.prop, fam['name'] if fam else '-', reason))
-            for line in json.dumps(detail, indent=1, default=str).split('\n'):
-                f.write('# ' + line + '\n')
+            for line in json.dumps(compact_detail(detail), indent=1, default=str).split('\n'):
+                f.write('# ' + line[:600] + '\n')
             if extra:
                 for line in str(extra).split('\n'):
                     f.write('# ' + line + '\n')
@@ -627,6 +629,16 @@ class Check:
             if famname in (None, '-', fam['name']):
                 self.correspond(fam, cases=cases, replaying=True)
         return self.finish()
+
+def compact_detail(d):
+    """lists of integers are rendered on one line as hex tokens"""
+    if isinstance(d, dict):
+        return {k: compact_detail(x) for k, x in d.items()}
+    if isinstance(d, (list, tuple)):
+        if d and all(isinstance(x, int) for x in d):
+            return ' '.join(tok(x) for x in d[:80]) + (' ...' if len(d) > 80 else '')
+        return [compact_detail(x) for x in d]
+    return d
 
 def read_script(path, prefix=''):
     cases = []
